@@ -9,6 +9,8 @@
 (*            blocks : Seq(Block),                                                             *)
 (*            icount : Nat, irecs : Seq([u, n]),   Number of Records, the Records (Unpadded, Uncompressed) *)
 (*            ivli, ipadz, icrc : BOOLEAN,     Index VLIs well formed / padding zero / CRC32 ok *)
+(*            ivpos, ivcls : which VLI of the Index is malformed and how (when ~ivli); icb, fbb and the ub / nb of   *)
+(*            Records, the big of cs / us: BIG tags (below); vc / idv / psv: malformation class of a header VLI     *)
 (*            fcrc, fvers, fmagic : BOOLEAN, fcheck : 0..15, fbs : Nat (Backward Size, real bytes), *)
 (*            pad : Nat]                       Stream Padding after the Stream                 *)
 (* Block  == [hsz : Nat (stated Block Header Size), resv : BOOLEAN (reserved Block Flags),      *)
@@ -29,8 +31,21 @@ Ceil4(n) == n + Pad4(n)
 (* xz-file-format 2.1.1.2: Check IDs and the size of the Check field *)
 CheckSize(c) == CASE c = 0 -> 0 [] c \in 1..3 -> 4 [] c \in 4..6 -> 8 [] c \in 7..9 -> 16 [] c \in 10..12 -> 32 [] OTHER -> 64
 CheckSupported(c) == c \in {0, 1, 4, 10}           \* None, CRC32, CRC64, SHA-256 (check.h, this build)
-(* xz-file-format 1.2: variable-length integers (values of the models stay below 2^28) *)
+(* xz-file-format 1.2: variable-length integers.  True values of the models stay below 2^27.                    *)
+(* BIG values (TLC integers are 32-bit): a stored value that exceeds the true one by 2^31, 2^32, 2^33 or 2^62 -   *)
+(* the wrap-around classes of 32-bit / signed arithmetic - is represented by the stand-in v + BigStandIn plus a  *)
+(* tag that carries the real magnitude ("p31" "p32" "p33" "p62"; for the 32-bit Backward Size field "k1" "k2"    *)
+(* "k3": stored + k * 2^30, i.e. real + k * 2^32).  The models only compare, order and add values and take      *)
+(* their encoded length, for which the stand-in is faithful: it is larger than, and different from, every true  *)
+(* value; the length comes from the tag.                                                                         *)
+BigStandIn == 134217728
 VliLen(v) == IF v < 128 THEN 1 ELSE IF v < 16384 THEN 2 ELSE IF v < 2097152 THEN 3 ELSE 4
+BigLen(tag) == IF tag = "p62" THEN 9 ELSE 5                 \* 2^31 .. 2^33 + small: five bytes; 2^62 + small: nine bytes
+VliLenT(v, tag) == IF tag = "" THEN VliLen(v) ELSE BigLen(tag)
+(* MALFORMED encodings of a VLI (the decoders must reject them wherever a VLI is read):                          *)
+(*   "nonmin" - the minimal encoding of the SAME value with a continuation bit added and a 0x00 byte appended;   *)
+(*   "over9"  - nine bytes that all carry the continuation bit (a tenth byte would be needed: more than 63 bits) *)
+EncLen(len, cls) == CASE cls = "nonmin" -> len + 1 [] cls = "over9" -> 9 [] OTHER -> len
 UnpaddedMin == 5
 
 (* ---- filters (xz-file-format 5.3; filter_common.c features[]) ---- *)
@@ -39,11 +54,12 @@ NonLastOk(id) == id \in Bcj \cup {"delta"}
 LastOk(id) == id = "lzma2"
 KnownFilter(id) == id \in Bcj \cup {"delta", "lzma2"}
 IdLen(id) == IF id = "reserved" THEN 9 ELSE 1          \* "reserved": an ID >= 2^62 needs 9 bytes
-FilterLen(f) == IdLen(f.id) + 1 + f.plen               \* Filter ID, Size of Properties, Properties
-F(id, plen) == [id |-> id, plen |-> plen, pok |-> TRUE]
+FilterLen(f) == EncLen(IdLen(f.id), f.idv) + EncLen(1, f.psv) + f.plen     \* Filter ID, Size of Properties, Properties
+FX(id, plen, pok) == [id |-> id, plen |-> plen, pok |-> pok, idv |-> "ok", psv |-> "ok"]
+F(id, plen) == FX(id, plen, TRUE)
 
 (* ---- real sizes of the parts of a Block ---- *)
-SizeLen(x) == IF x.p THEN VliLen(x.v) + (IF x.vli THEN 0 ELSE 1) ELSE 0     \* a malformed VLI here: non-minimal, one byte longer
+SizeLen(x) == IF x.p THEN EncLen(VliLenT(x.v, x.big), IF x.vli THEN "ok" ELSE x.vc) ELSE 0
 HdrBody(B) == 2 + SizeLen(B.cs) + SizeLen(B.us) + SumSeq([k \in 1..Len(B.filters) |-> FilterLen(B.filters[k])])
 HdrReal(B) == HdrBody(B) + B.hpad + 4                   \* bytes really occupied by the header as written
 DataReal(B) == SumSeq([k \in 1..Len(B.chunks) |-> IF B.chunks[k].k = "end" THEN 1 ELSE B.chunks[k].c])
@@ -52,9 +68,18 @@ BlockPadLen(B) == Pad4(DataReal(B))
 BlockReal(B, check) == HdrReal(B) + DataReal(B) + BlockPadLen(B) + CheckSize(check)
 Unpadded(B, check) == HdrReal(B) + DataReal(B) + CheckSize(check)
 
-IndexBody(S) == 1 + VliLen(S.icount) + SumSeq([k \in 1..Len(S.irecs) |-> VliLen(S.irecs[k].u) + VliLen(S.irecs[k].n)])
-                + (IF S.ivli THEN 0 ELSE 1)
-IndexReal(S) == Ceil4(IndexBody(S)) + 4
+(* the VLIs of the Index in file order: position 1 = Number of Records, 2k = Unpadded Size, 2k + 1 = Uncompressed Size of Record k *)
+IvCls(S, pos) == IF ~S.ivli /\ S.ivpos = pos THEN S.ivcls ELSE "ok"
+CountLen(S) == EncLen(VliLenT(S.icount, S.icb), IvCls(S, 1))
+RecLen(S, k) == EncLen(VliLenT(S.irecs[k].u, S.irecs[k].ub), IvCls(S, 2 * k)) + EncLen(VliLenT(S.irecs[k].n, S.irecs[k].nb), IvCls(S, 2 * k + 1))
+IndexBody(S) == 1 + CountLen(S) + SumSeq([k \in 1..Len(S.irecs) |-> RecLen(S, k)])
+(* Index Padding as a decoder computes it: from the VALUES (their minimal encoded sizes).  A file with a malformed  *)
+(* (longer) VLI in its Index is written with exactly that padding and with the Backward Size of the minimal Index,  *)
+(* so that the malformed integer is the ONLY thing wrong with it.                                                   *)
+IndexBodyMin(S) == 1 + VliLenT(S.icount, S.icb) + SumSeq([k \in 1..Len(S.irecs) |-> VliLenT(S.irecs[k].u, S.irecs[k].ub) + VliLenT(S.irecs[k].n, S.irecs[k].nb)])
+IndexPad(S) == Pad4(IndexBodyMin(S))
+IndexReal(S) == IndexBody(S) + IndexPad(S) + 4
+IndexRealMin(S) == IndexBodyMin(S) + IndexPad(S) + 4
 StreamReal(S) == 12 + SumSeq([k \in 1..Len(S.blocks) |-> BlockReal(S.blocks[k], S.check)]) + IndexReal(S) + 12
 FileReal(file) == SumSeq([k \in 1..Len(file.streams) |-> StreamReal(file.streams[k]) + file.streams[k].pad])
 
@@ -70,8 +95,8 @@ ConcatAll(qq) == IF qq = <<>> THEN <<>> ELSE Head(qq) \o ConcatAll(Tail(qq))
 StreamFields(s, S) ==
     <<Fld(s, 0, "h.magic", 6), Fld(s, 0, "h.flags", 2), Fld(s, 0, "h.crc32", 4)>>
     \o ConcatAll([b \in 1..Len(S.blocks) |-> BlockFields(s, b, S.blocks[b], S.check)])
-    \o <<Fld(s, 0, "i.indicator", 1), Fld(s, 0, "i.count", VliLen(S.icount)),
-         Fld(s, 0, "i.records", IndexBody(S) - 1 - VliLen(S.icount)), Fld(s, 0, "i.padding", Pad4(IndexBody(S))),
+    \o <<Fld(s, 0, "i.indicator", 1), Fld(s, 0, "i.count", CountLen(S)),
+         Fld(s, 0, "i.records", IndexBody(S) - 1 - CountLen(S)), Fld(s, 0, "i.padding", IndexPad(S)),
          Fld(s, 0, "i.crc32", 4),
          Fld(s, 0, "f.crc32", 4), Fld(s, 0, "f.backward_size", 4), Fld(s, 0, "f.flags", 2), Fld(s, 0, "f.magic", 2),
          Fld(s, 0, "s.padding", S.pad)>>
@@ -83,8 +108,9 @@ FieldOffset(file, k) == SumSeq([j \in 1..(k - 1) |-> Fields(file)[j].len])
 (* Constructors: a VALID Block / Stream from choices; everything derived is  *)
 (* given its true value.                                                      *)
 (* ------------------------------------------------------------------------ *)
-Absent == [p |-> FALSE, v |-> 0, vli |-> TRUE]
-Present(v) == [p |-> TRUE, v |-> v, vli |-> TRUE]
+Absent == [p |-> FALSE, v |-> 0, vli |-> TRUE, vc |-> "ok", big |-> ""]
+Present(v) == [p |-> TRUE, v |-> v, vli |-> TRUE, vc |-> "ok", big |-> ""]
+Rec(u, n) == [u |-> u, n |-> n, ub |-> "", nb |-> ""]
 MkBlock(did, chunks, hasCs, hasUs, filters, extraPad) ==
     LET b0 == [hsz |-> 0, resv |-> FALSE, cs |-> Absent, us |-> Absent, filters |-> filters, fits |-> TRUE,
                hpad |-> 0, hpadz |-> TRUE, hcrc |-> TRUE, chunks |-> chunks, did |-> did, bpadz |-> TRUE, chk |-> TRUE]
@@ -95,8 +121,8 @@ MkBlock(did, chunks, hasCs, hasUs, filters, extraPad) ==
 MkStream(check, blocks, pad) ==
     LET s0 == [hmagic |-> TRUE, hvers |-> TRUE, hcrc |-> TRUE, check |-> check, blocks |-> blocks,
                icount |-> Len(blocks),
-               irecs |-> [k \in 1..Len(blocks) |-> [u |-> Unpadded(blocks[k], check), n |-> DataOut(blocks[k])]],
-               ivli |-> TRUE, ipadz |-> TRUE, icrc |-> TRUE,
-               fcrc |-> TRUE, fvers |-> TRUE, fmagic |-> TRUE, fcheck |-> check, fbs |-> 0, pad |-> pad]
-    IN [s0 EXCEPT !.fbs = IndexReal(s0)]
+               irecs |-> [k \in 1..Len(blocks) |-> Rec(Unpadded(blocks[k], check), DataOut(blocks[k]))],
+               ivli |-> TRUE, ivpos |-> 0, ivcls |-> "ok", icb |-> "", ipadz |-> TRUE, icrc |-> TRUE,
+               fcrc |-> TRUE, fvers |-> TRUE, fmagic |-> TRUE, fcheck |-> check, fbs |-> 0, fbb |-> "", pad |-> pad]
+    IN [s0 EXCEPT !.fbs = IndexRealMin(s0)]
 =============================================================================
